@@ -244,6 +244,15 @@ func c14One(c *ev.Ctx, cs ev.Case, pool []c14Payload, lwOK bool) {
 		edits = append(edits, edit{r.Intn(2), r.Intn(nf+2) - 1, pickI(r, 0, 1, 50, 0xFFFFFF, 0x1000000, -1)})
 	}
 	h.CanvasMode = pickS(r, "absent", "absent", "exact", "larger", "smaller")
+	// in 1 of 3 histories the muxer is also assembled once somewhere in the middle of the call sequence (output
+	// discarded): an Assemble must not change what a later Assemble of the same Muxer writes
+	if r.Intn(3) == 0 {
+		insert(func() {
+			var early bytes.Buffer
+			ev.Guard(func() { m.Assemble(&early) })
+			h.Ops = append(h.Ops, fmt.Sprintf("Assemble() [early, %d bytes discarded]", early.Len()))
+		})
+	}
 	// run
 	for _, o := range ops {
 		o()
@@ -294,6 +303,13 @@ func c14One(c *ev.Ctx, cs ev.Case, pool []c14Payload, lwOK bool) {
 		h.CanvasW, h.CanvasH = extW, extH
 	case "larger":
 		h.CanvasW, h.CanvasH = extW+1+r.Intn(9), extH+r.Intn(9)
+		if r.Intn(6) == 0 { // beyond 16 bits (24-bit canvas fields)
+			if r.Intn(2) == 0 {
+				h.CanvasW = pickI(r, 65536, 65537, 70000, 100000)
+			} else {
+				h.CanvasH = pickI(r, 65536, 65537, 70000, 100000)
+			}
+		}
 	case "smaller":
 		h.CanvasW, h.CanvasH = extW-1, extH
 		if h.CanvasW <= 0 {
@@ -338,6 +354,16 @@ func c14One(c *ev.Ctx, cs ev.Case, pool []c14Payload, lwOK bool) {
 	c.Eval(1)
 	data := buf.Bytes()
 	rep := func() any { return map[string]any{"ops": h.Ops, "file": b64(data)} }
+	if cs.Idx%2 == 1 { // every second history is judged on the output of a second Assemble of the same, unchanged Muxer
+		var again bytes.Buffer
+		if p := ev.Guard(func() { aerr = m.Assemble(&again) }); p != "" {
+			c.Violate(cs, "panic", map[string]string{"where": "Assemble (second call)"}, p, nil)
+			return
+		}
+		data = again.Bytes()
+		h.Ops = append(h.Ops, "Assemble() [first output discarded, second one judged]")
+		cs.Desc = fmt.Sprintf("%v", h.Ops)
+	}
 	if aerr != nil {
 		if !expectReject {
 			c.Violate(cs, "valid-history-rejected", map[string]string{"canvas": h.CanvasMode}, aerr.Error(), rep())
